@@ -116,6 +116,10 @@ pub fn build_subjects(ctx: &Ctx, thorough: bool, max_programs: usize) -> Vec<Sub
         let (pi, ci) = jobs[k];
         let (prog, ivs) = &progs[pi];
         let (cname, cfg) = &cfgs[ci];
+        // zero knowledge pads every circuit to 512 rows (a prove costs ~10x): two programs only
+        if cname == "zk" && pi != 0 && pi != 2 {
+            return None;
+        }
         make_subject(ctx, prog, ivs, cname, cfg, if thorough { ivs.len() } else { 1 })
     });
     let mut out: Vec<Subject> = built.into_iter().flatten().collect();
@@ -415,7 +419,7 @@ pub fn run(ctx: &Ctx) -> i32 {
             // every cell and every virtual target, individually (quick tier: every 2nd target for the
             // extra configuration subjects)
             // the zero-knowledge subjects have 512 rows (blinding): every 4th target there
-            let tstep = if !thorough && s.cfg_name != "std" { 3 } else if s.cfg_name == "zk" { 4 } else { 1 };
+            let tstep = if !thorough && s.cfg_name != "std" { 3 } else if s.cfg_name == "zk" { 16 } else { 1 };
             for i in (0..n_targets).step_by(tstep) {
                 for k in &kinds {
                     cases.push((si, bi, Corr::Cell(i, *k), Strat::S0));
@@ -454,7 +458,7 @@ pub fn run(ctx: &Ctx) -> i32 {
                 v
             };
             for st in &combo_strats {
-                let step = if full { 1 } else if thorough && s.cfg_name == "zk" { 13 } else if thorough { 3 } else if s.cfg_name != "std" { 23 } else { 5 };
+                let step = if full { 1 } else if thorough && s.cfg_name == "zk" { 53 } else if thorough { 3 } else if s.cfg_name != "std" { 23 } else { 5 };
                 for i in (0..s.sc.degree * nw).step_by(step) {
                     // S6 is only interesting on lookup-related cells; keep all for simplicity of the rule
                     cases.push((si, bi, Corr::Cell(i, 0), *st));
@@ -506,7 +510,7 @@ pub fn run(ctx: &Ctx) -> i32 {
             "multi-cell coordinated corruptions and strategies outside S0-S6 are not explored (deviation bound 1 + one strategy)".into(),
             "the oracle trusts each gate's eval_unfiltered (gate-level strength is C07's job) and the harness restatement of lookup padding".into(),
             "a false proof is rejected at zeta in F_p^2 except with probability ~2^-110, so 2 FRI queries suffice for these verdicts".into(),
-            "quick tier: replacement v+1 only, first base input only, strategy x cell combinations on every 5th cell; thorough tier: full depth (3 inputs, 3 replacements, every cell under every strategy) on the standard configuration, one input / v+1 / every 3rd cell for the 9 configuration deviations (zero-knowledge subjects, 512 rows: every 4th target, strategy combinations on every 13th cell)".into(),
+            "quick tier: replacement v+1 only, first base input only, strategy x cell combinations on every 5th cell; thorough tier: full depth (3 inputs, 3 replacements, every cell under every strategy) on the standard configuration, one input / v+1 / every 3rd cell for the 9 configuration deviations (zero-knowledge subjects, 512 rows, two programs: every 16th target, strategy combinations on every 53rd cell)".into(),
         ],
         extra: json!({}),
     })
